@@ -74,6 +74,25 @@ def gen_case(rng, groups_subset=None, force_enabled=None):
             if rng.random() < 0.15:
                 toggles.append([g, i, m["name"], not m["enabled"], rng.choice(["attr", "override"])])
     case["toggles"] = toggles
+    # YAML anchors/aliases: ONE model entry object used in two groups (`- &m {...}` … `- *m`)
+    case["aliases"] = []
+    populated = [(g, ms) for g, ms in groups if ms]
+    if case["construction"] == "yaml" and case["mode"] == "exposure" and populated and rng.random() < 0.35:
+        g, ms = rng.choice(populated)
+        i = rng.randrange(len(ms))
+        others = [g2 for g2 in GROUPS if g2 != g]
+        g2 = rng.choice(others)
+        case["aliases"].append([g, i, g2])
+    # a model that fails (after having been called): it must still have executed exactly once
+    case["fail"] = None
+    enabled_now = [(g, i) for g, ms in groups for i, m in enumerate(ms or []) if m["enabled"] and not any(t[0] == g and t[1] == i for t in toggles)]
+    if case["mode"] == "exposure" and enabled_now and not case["aliases"] and rng.random() < 0.12:
+        g, i = rng.choice(enabled_now)
+        case["fail"] = [g, i, rng.randrange(case["steps"]), rng.choice(["TypeError", "TypeError", "ValueError", "KeyError", "AttributeError"])]
+        for gg, ms in groups:
+            if gg == g:
+                ms[i]["args"]["_raise_step"] = case["fail"][2]
+                ms[i]["args"]["_raise_cls"] = case["fail"][3]
     if case["mode"] != "exposure":
         case["debug"] = False  # debug capture exists for exposure only
         case["construction"] = "python"
@@ -85,14 +104,20 @@ def gen_case(rng, groups_subset=None, force_enabled=None):
 # ------------------------------------------------------------------ implementation side
 def pipeline_dict(case):
     d = {}
+    objs = {}
     for g, ms in case["groups"]:
         if ms is None:
             d[g] = None
         else:
-            d[g] = [
-                {"name": m["name"], "func": "probes.trace", "enabled": m["enabled"], "arguments": dict(m["args"])}
-                for m in ms
-            ]
+            d[g] = []
+            for i, m in enumerate(ms):
+                o = {"name": m["name"], "func": "probes.trace", "enabled": m["enabled"], "arguments": dict(m["args"])}
+                objs[(g, i)] = o
+                d[g].append(o)
+    for g, i, g2 in case.get("aliases", []):
+        if d.get(g2) is None:
+            d[g2] = []
+        d[g2].append(objs[(g, i)])  # the SAME object: yaml.safe_dump writes an anchor and an alias
     return d
 
 
@@ -143,6 +168,7 @@ def run_impl(case):
 
     probes.reset()
     td = None
+    raised = None
     try:
         mode, det, pipe = build(case)
         mode_kind = case["mode"]
@@ -183,7 +209,9 @@ def run_impl(case):
         else:
             raise ValueError(mode_kind)
     except Exception as e:  # noqa: BLE001
-        return {"error": common.err_kind(e), "msg": str(e)[:300]}
+        if not case.get("fail"):
+            return {"error": common.err_kind(e), "msg": str(e)[:300]}
+        raised = common.err_kind(e)
     finally:
         if td:
             import shutil
@@ -199,6 +227,9 @@ def run_impl(case):
         g, _, idx = ident.partition("#")
         trace.append([step, g, int(idx), name, kw])
     out = {"trace": trace}
+    if case.get("fail"):
+        out["raised"] = raised
+        return out
     if case["debug"] and mode_kind == "exposure":
         nodes = []
         inter = res["intermediate"]
@@ -225,6 +256,21 @@ def whole_copies(seg, expected):
     return len(seg) // n
 
 
+def effective_groups(case):
+    """groups with aliased entries appended to their second group (same name / flag / arguments)"""
+    groups = [[g, (None if ms is None else list(ms))] for g, ms in case["groups"]]
+    for g, i, g2 in case.get("aliases", []):
+        src = next(ms for gg, ms in groups if gg == g)[i]
+        tgt = next((x for x in groups if x[0] == g2), None)
+        if tgt is None:
+            groups.append([g2, [src]])
+        elif tgt[1] is None:
+            tgt[1] = [src]
+        else:
+            tgt[1] = tgt[1] + [src]
+    return groups
+
+
 def final_enabled(case, g, i, m):
     for tg, ti, _name, new, _route in case.get("toggles", []):
         if tg == g and ti == i:
@@ -236,7 +282,7 @@ def lean_request(case):
     from probes import canon_kwargs
 
     groups = []
-    for g, ms in case["groups"]:
+    for g, ms in effective_groups(case):
         groups.append([g, [[m["name"], final_enabled(case, g, i, m), canon_kwargs(m["args"])] for i, m in enumerate(ms or [])]])
     return {"groups": groups, "steps": case["steps"], "debug": case["debug"]}
 
@@ -249,7 +295,7 @@ def property_predicate(case, impl):
     from probes import canon_kwargs
 
     expected = []
-    cfg = {g: ms for g, ms in case["groups"] if ms}
+    cfg = {g: ms for g, ms in effective_groups(case) if ms}
     for step in range(case["steps"]):
         for g in GROUPS:
             for i, m in enumerate(cfg.get(g, [])):
@@ -266,8 +312,22 @@ def property_predicate(case, impl):
         if expected and total < want:
             return f"mode {case['mode']}: only {total} complete executions observed (expected at least {want})"
         return None
-    if impl["trace"] != expected:
-        return "trace differs from the statement's schedule"
+    if case.get("fail"):
+        fg, fi, fstep, fcls = case["fail"]
+        cut = next((k for k, c in enumerate(expected) if c[0] == fstep and c[1] == fg and c[2] == fi), None)
+        expected = expected[: cut + 1] if cut is not None else expected
+        if impl.get("raised") is None:
+            return "a model raised but the run returned normally"
+    got = impl["trace"]
+    if case.get("aliases"):
+        # an aliased entry carries the `_id` of its first occurrence: judge (step, name, arguments) in order
+        got = [[c[0], c[3], c[4]] for c in got]
+        expected_p = [[c[0], c[3], c[4]] for c in expected]
+        if got != expected_p:
+            return "trace differs from the statement's schedule (pipeline with a YAML alias)"
+        return None
+    if got != expected:
+        return "trace differs from the statement's schedule" + (" (a failing model must still have executed exactly once)" if case.get("fail") else "")
     if "debug_nodes" in impl:
         exp_nodes = sorted({(s, g, n) for s, g, _, n, _ in expected})
         if [tuple(x) for x in impl["debug_nodes"]] != exp_nodes:
@@ -291,6 +351,10 @@ def body(ck: common.Check):
         c["groups"] = [x for x in c["groups"]]
         c["steps"], c["debug"], c["mode"], c["construction"] = 1, False, "exposure", rng.choice(["python", "yaml"])
         c["toggles"] = []
+        c["aliases"], c["fail"] = [], None
+        for _g, _ms in c["groups"]:
+            for _m in (_ms or []):
+                _m["args"].pop("_raise_step", None), _m["args"].pop("_raise_cls", None)
         cases.append(("pairs", c))
     for _ in range(n_random):
         cases.append(("random", gen_case(rng)))
@@ -313,14 +377,25 @@ def body(ck: common.Check):
         if why is not None:
             ck.violation("C01:schedule", why, {"case": case, "impl": impl, "spec": ans["spec"]})
         ck.count(f"mode={case['mode']}")
-        if "trace" in impl and impl["trace"] != ans["model"]:
-            ck.disagreement(stream, case, impl["trace"], ans["model"])
+        model_trace = ans["model"]
+        impl_trace = impl.get("trace")
+        if case.get("fail") and impl_trace is not None:
+            fg, fi, fstep, _ = case["fail"]
+            cut = next((k for k, c in enumerate(model_trace) if c[0] == fstep and c[1] == fg and c[2] == fi), None)
+            model_trace = model_trace[: cut + 1] if cut is not None else model_trace
+        if case.get("aliases") and impl_trace is not None:
+            model_trace = [[c[0], c[3], c[4]] for c in model_trace]
+            impl_trace = [[c[0], c[3], c[4]] for c in impl_trace]
+        ck.count("yaml_alias", len(case.get("aliases", [])))
+        ck.count("planned_failure", 1 if case.get("fail") else 0)
+        if impl_trace is not None and impl_trace != model_trace:
+            ck.disagreement(stream, case, impl_trace, model_trace)
         if "segments" in impl:
             for seg in impl["segments"]:
                 if whole_copies(seg, ans["model"]) is None:
                     ck.disagreement(stream, case, seg, ans["model"])
                     break
-        if "trace" in impl and impl["trace"] != ans["spec"] and why is None:
+        if "trace" in impl and not case.get("fail") and not case.get("aliases") and impl["trace"] != ans["spec"] and why is None:
             raise common.InfraError("python predicate and Lean spec disagree — harness bug")
     ck.rule = ("pipelines over random subsets of the 10 groups (user order shuffled, null/empty groups, 1-4 models, "
                "enabled flags, argument dicts), 1-4 steps, YAML vs Python construction, debug on/off; plus every ordered "
